@@ -1,7 +1,7 @@
 """C04 - cow_guarded snapshots are immutable; commits are atomic and never lost."""
 import re
 
-from ..engine import (CALLS, CTORS, HELD, MAYBE, UNOWNED, LockAnalysis, LockVal, callee_fq, path, unwrap)
+from ..engine import (CALLS, CTORS, HELD, MAYBE, UNOWNED, LockAnalysis, LockVal, callee_fq, lock_class, path, unwrap)
 from ..facts import short
 from ..flow import cond_atoms, path_positions, paths, TooManyPaths
 from ..guards import lambda_site
@@ -46,7 +46,7 @@ def lock_object_based(ctx):
         return False
     for r in recs:
         fl = r.field("m_lock")
-        if fl is None or not fl["type"].startswith(("std::unique_lock<", "const std::unique_lock<")):
+        if fl is None or not lock_class(fl["type"]):
             return False
     return True
 
